@@ -87,9 +87,11 @@ class Checker:
     501 on a declared route, a response >= 400 leaves the store and the file container unchanged and carries the Result structure
     (406: plain).  Collects every violation of the history (each with the prefix that leads to it)."""
 
-    def __init__(self, file_backed: bool = False):
+    def __init__(self, file_backed: bool = False, reclass: bool = False):
         self.fb = file_backed
         self.srv = c10.Server(file_backed)
+        self.srv.reclass = reclass and not file_backed
+        self.mode = "file" if file_backed else "dict+sub" if reclass else "dict"
         self.reqs: List[Dict[str, Any]] = []
         self.fails: List[C.Failing] = []
 
@@ -98,10 +100,12 @@ class Checker:
 
     def step(self, R: Dict[str, Any]) -> Any:
         srv = self.srv
+        if srv.reclass:
+            c10.reclass_store(srv.store)
         before = srv.snapshot_full()
         out = srv.send(R)
         self.reqs.append(R)
-        case = {"mode": "file" if self.fb else "dict", "reqs": list(self.reqs)}
+        case = {"mode": self.mode, "reqs": list(self.reqs)}
         shape = f"{R['m']}:{route_shape(R)}"
         url = c10.url_of(R)[:300]
         if out[0] == "crash":
@@ -128,8 +132,10 @@ class Checker:
         return out
 
 
-def check_history_all(reqs: List[Dict[str, Any]], file_backed: bool = False) -> List[C.Failing]:
-    chk = Checker(file_backed)
+def check_history_all(reqs: List[Dict[str, Any]], file_backed: Any = False) -> List[C.Failing]:
+    """`file_backed`: True | False | a mode string ("file", "dict", "dict+sub")"""
+    mode = file_backed if isinstance(file_backed, str) else ("file" if file_backed else "dict")
+    chk = Checker(mode == "file", mode == "dict+sub")
     try:
         for R in reqs:
             chk.step(R)
@@ -185,7 +191,7 @@ def crash_class(R: Dict[str, Any], prefix: List[Dict[str, Any]], exc) -> tuple:
     return None, None
 
 
-def check_history(reqs: List[Dict[str, Any]], file_backed: bool = False) -> Optional[C.Failing]:
+def check_history(reqs: List[Dict[str, Any]], file_backed: Any = False) -> Optional[C.Failing]:
     """the violation at the last request of the history if there is one, otherwise the first violation"""
     fs = check_history_all(reqs, file_backed)
     for f in fs:
@@ -1051,7 +1057,7 @@ def oracle(ctx: C.Ctx, cov: C.Coverage) -> List[C.Failing]:
                            "holds every stored object in full and the file container")
     for k in range(ctx.budget(400, 3000)):
         fb = k % 6 == 5
-        chk = Checker(fb)
+        chk = Checker(fb, reclass=(k % 7 == 3))
         try:
             h = GridHistory(f"o:{ctx.seed}:{k}", rng.randint(8, 16), False)
             for R in h.requests(chk.srv.snapshot):
@@ -1062,15 +1068,53 @@ def oracle(ctx: C.Ctx, cov: C.Coverage) -> List[C.Failing]:
             if k % 10 == 0:
                 for R in special_requests(rng):
                     chk.step(R)
+            if k in (1, 5):
+                malformed_sweep(chk)
+                cov.hit("oracle:malformed-sweep")
         finally:
             chk.close()
         cov.hit("oracle-histories")
         for f in chk.fails:
             if f.sig not in sigs:
                 sigs.add(f.sig)
-                f.case["reqs"] = C.ddmin(f.case["reqs"], lambda rs, f=f, fb=fb: (lambda g: g is not None and g.sig == f.sig)(check_history(rs, fb)), 60)
+                f.case["reqs"] = C.ddmin(f.case["reqs"], lambda rs, f=f, fb=chk.mode: (lambda g: g is not None and g.sig == f.sig)(check_history(rs, fb)), 60)
                 out.append(f)
     return out
+
+
+def malformed_sweep(chk: "Checker") -> None:
+    """(round 5) "Malformed ... client input always yields a 4xx": EVERY document of the malformed pool (c10.MALFORMED: not well-formed,
+    empty, of no class, violating a constraint, or malformed in an optional nested position only) x every route that takes a body x
+    level absent / core x the content types of its format, against a store that holds the addressed resources.  Exhaustive, not drawn."""
+    i, shid, cdid = c10.IDS[0], c10.IDS[2], c10.IDS[3]
+    sm = c10.mk_sm(i, None, 1, [[c10.QTYPES[0], 1]], [c10.mk_elem("prop", "a", 1, [[c10.QTYPES[0], 1]]), c10.mk_elem("coll", "b", 1, [], [])])
+    sh = c10.mk_shell(shid, None, 1, [i])
+    cd = c10.gen_obj(random.Random(5), "cd", cdid)
+    P = lambda segs, o, p: c10.mk_req("POST", segs, 1, 0, {"p": p, "o" if p == "obj" else "e": o}, c10.serialise(o, "json"))
+    for R in (P(["submodels"], sm, "obj"), P(["shells"], sh, "obj"), P(["concept-descriptions"], cd, "obj")):
+        chk.step(R)
+    b = c10.b64
+    q0 = b(c10.QTYPES[0])
+    routes = [("POST", ["submodels"]), ("PUT", ["submodels", b(i)]), ("POST", ["shells"]), ("PUT", ["shells", b(shid)]),
+              ("POST", ["concept-descriptions"]), ("PUT", ["concept-descriptions", b(cdid)]),
+              ("PUT", ["shells", b(shid), "submodels", b(i)]), ("POST", ["shells", b(shid), "submodel-refs"]),
+              ("POST", ["submodels", b(i), "submodel-elements"]), ("PUT", ["submodels", b(i), "submodel-elements", "a"]),
+              ("POST", ["submodels", b(i), "submodel-elements", "b"]),
+              ("POST", ["submodels", b(i), "qualifiers"]), ("PUT", ["submodels", b(i), "qualifiers", q0]),
+              ("POST", ["submodels", b(i), "submodel-elements", "a", "qualifiers"]), ("PUT", ["submodels", b(i), "submodel-elements", "a", "qualifiers", q0]),
+              ("PUT", ["shells", b(shid), "asset-information"])]
+    for fmt, cts in (("json", [0, 4]), ("xml", [1, 2, 3])):
+        for n, doc in enumerate(c10.MALFORMED[fmt]):
+            for r, (m, segs) in enumerate(routes):
+                for level in (None, "core"):
+                    R = c10.mk_req(m, segs, (n + r) % 4, cts[(n + r) % len(cts)], "raw", doc, level=level)
+                    nf = len(chk.fails)
+                    out = chk.step(R)
+                    if out[0] == "resp" and out[1] < 400 and len(chk.fails) == nf:
+                        shape = f"{m}:{route_shape(R)}"
+                        chk.fails.append(C.Failing(f"http:malformed-accepted:{shape}:{fmt}{':core' if level else ''}",
+                                                   f"{m} {c10.url_of(R)[:200]} with the malformed {fmt} body {doc[:160]!r} answered {out[1]}",
+                                                   {"mode": chk.mode, "reqs": list(chk.reqs), "kind": "malformed-accepted"}, out[1], "4xx"))
 
 
 def special_requests(rng: random.Random) -> List[Dict[str, Any]]:
@@ -1111,7 +1155,7 @@ def search(ctx: C.Ctx, disagreements, broken) -> List[C.Failing]:
     out: List[C.Failing] = []
     for d in disagreements:
         if isinstance(d.case, dict) and "reqs" in d.case:
-            f = check_history(d.case["reqs"], d.case.get("mode") == "file")
+            f = check_history(d.case["reqs"], d.case.get("mode", "dict"))
             if f:
                 out.append(f)
     if out:
@@ -1128,7 +1172,7 @@ def search(ctx: C.Ctx, disagreements, broken) -> List[C.Failing]:
 def replay(case) -> Optional[C.Failing]:
     if case.get("kind") == "semantic":
         return c10.replay(case)
-    return check_history(case["reqs"], case.get("mode") == "file")
+    return check_history(case["reqs"], case.get("mode", "dict"))
 
 
 def translate(ctx) -> List[str]:
